@@ -25,7 +25,7 @@ def run_impl(c, fn):
     p = len(c["score"])
     X = pd.DataFrame(np.zeros((c["n"], p)))
     d = MovingWindow(change_score=ts.FnChangeScore(fn, p), bandwidth=c["b"], threshold_scale=1.0,
-                     min_detection_interval=c["mdi"]).fit(X)
+                     min_detection_interval=c["mdi"]).fit(pd.DataFrame(np.zeros((len(X) + (len(X) * 7 + 3) % 5, X.shape[1]))))
     d.threshold_ = float(c["thr"])
     scores = d.transform_scores(X).to_numpy()
     cpts = [int(v) for v in d.predict(X)["ilocs"]]
@@ -122,7 +122,8 @@ def run(ctx):
         n = ctx.rng.randint(2 * b, 2 * b + 14)
         Xn = _np.asarray([[ctx.rng.randint(-4, 4) + 20.0 * j for j in range(p)] for _ in range(n)], dtype=float)
         Xn[ctx.rng.randint(0, n - 1):] += ctx.rng.choice([6.0, -8.0])
-        sc = MW(bandwidth=b, threshold_scale=0.0).fit(_pd.DataFrame(Xn)).transform_scores(_pd.DataFrame(Xn)).to_numpy().ravel()
+        Xin = _pd.DataFrame(Xn.astype(_np.int64)) if it % 2 else _pd.DataFrame(Xn)       # the same integer values stored as int64 / float64
+        sc = _np.asarray(MW(bandwidth=b, threshold_scale=0.0).fit(Xin).transform_scores(Xin).to_numpy(), dtype=float).ravel()
         want = _np.zeros(n)
         for t in range(b, n - b + 1):
             if t < n:
